@@ -30,6 +30,8 @@ M = 100000
 
 def setup_symbolic():
     readfam.setup_symbolic()
+    from props import c05
+    c05.setup_symbolic()
 
 
 def mirror_name(n):
@@ -252,6 +254,39 @@ def h_translate_cigar(ops):
     return fn
 
 
+def h_regions_translate(n, max_len):
+    """region cutting under translation (scaled constants, as C05): a locus below the splitting thresholds is processed as ONE
+    region at every offset k; a locus that is split is cut at the same places when k is a multiple of the coverage bin"""
+    from props import c05
+
+    def fn(g):
+        als, prev = [], None
+        for i in range(n):
+            s_ = g.int("start%d" % i, 0, 11)
+            ln = g.int("length%d" % i, 1, max_len)
+            if prev is not None:
+                g.add(prev <= s_)
+            prev = s_
+            als.append((s_, s_ + ln))
+        any_k = g.int("shift", 0, 9)
+        arbitrary = bool(g.bool("shift_is_arbitrary"))
+        k = any_k if arbitrary else 4 * g.int("shift_in_bins", 0, 3)
+        with c05.Scaled():
+            res = []
+            for off in (0, k):
+                recs = [c05.Al(i, a + off, b + off) for i, (a, b) in enumerate(als)]
+                col, delivered = call(g, c05.run_collector, recs, bool(g.bool("high_memory")))
+                res.append([(r, sorted(x.i for x in lst)) for r, lst in delivered])
+            below = AND(max([b for _, b in als]) - als[0][0] < c05.ap.AlignmentCollector.MAX_REGION_LEN, n < c05.ap.AlignmentCollector.MIN_READS_TO_SPLIT)
+        a, b = res
+        # arbitrary shifts are claimed only for loci below the splitting thresholds (in the scaled model: one alignment shorter than 8)
+        g.assume(OR(not arbitrary, below))
+        same = len(a) == len(b) and AND([AND(x[0][0] + k == y[0][0], x[0][1] + k == y[0][1]) for x, y in zip(a, b)] or [True]) and \
+            all(x[1] == y[1] for x, y in zip(a, b))
+        g.check(same, "translated alignments are cut into the translated regions with the same members", detail={"original": str(a), "translated": str(b)})
+    return fn
+
+
 def revcomp(sq):
     return sq[::-1].translate(str.maketrans("ACGTacgt", "TGCAtgca"))
 
@@ -418,6 +453,12 @@ def instances(tier, seed):
                         continue
                     out.append(Instance("mirror_assign[%s,%s,%s,%s]" % (locus, tid, shape, preset), h_assign_mirror(locus, tid, 0, n - 1, preset, shape), F,
                                         "locus %s and its mirror image, read %s %s" % (locus, shape, tid), weight=40 * n, budget_s=1500))
+    for n_, ml in ([(1, 7), (2, 6)] if q else [(1, 9), (2, 8), (3, 6)]):
+        out.append(Instance("translate_regions[n=%d,len<=%d]" % (n_, ml), h_regions_translate(n_, ml),
+                            ["src.alignment_processor:AlignmentCollector.process", "src.alignment_processor:AlignmentCollector.split_coverage_regions",
+                             "src.alignment_processor:AbstractAlignmentStorage.add_alignment"],
+                            "%d alignments (scaled constants), arbitrary shift when the locus is one region, multiples of the bin otherwise" % n_,
+                            weight=60 ** n_, budget_s=1200))
     out.append(Instance("mirror_polya_finder", h_polya_finder, ["src.polya_finder:PolyAFinder.detect_polya", "src.polya_finder:PolyAFinder.find_polya_tail",
                                                                 "src.polya_finder:PolyAFinder.find_polyt_head", "src.polya_finder:move_ref_coord_alogn_alignment"],
                         "%d read ends (tail length / purity / internal A-rich end), symbolic alignment start" % len(POLYA_READS), weight=20))
